@@ -18,6 +18,74 @@ import sys
 import threading
 
 WATCHDOG_S = 60.0
+_ACTIVE = None            # the Scheduler whose run() is in progress in this process (one at a time)
+_LOCK_SEAM = {}
+
+
+class SimLock:
+    """A lock the simulator owns.  Wraps a real Lock / RLock created by library code.  Uncontended, or used outside a
+    simulated task, it behaves exactly like the real lock.  When a simulated task finds it held, the task does not block in
+    the kernel (the holder is parked and would never release it): it tells the scheduler, which runs another task - a
+    recorded decision like any other - and retries when it is scheduled again.  Who gets a contended lock is therefore
+    decided by the schedule, never by the OS."""
+
+    def __init__(self, real):
+        self._real = real
+
+    def acquire(self, blocking=True, timeout=-1):
+        S = _ACTIVE
+        task = S.current_task() if S is not None else None
+        if task is None or task.done:
+            return self._real.acquire(blocking, timeout)
+        while True:
+            if self._real.acquire(False):
+                return True
+            if not blocking:
+                return False
+            S.block_on(task, self)
+
+    def release(self):
+        self._real.release()
+        S = _ACTIVE
+        if S is not None:
+            S.lock_released(self)
+
+    def __enter__(self):
+        self.acquire()
+        return self
+
+    def __exit__(self, *a):
+        self.release()
+        return False
+
+    def locked(self):
+        if self._real.acquire(False):
+            self._real.release()
+            return False
+        return True
+
+
+def install_lock_seam(library_prefix):
+    """threading.Lock / threading.RLock called FROM LIBRARY CODE (a frame whose file lies under `library_prefix`) return
+    SimLocks; every other caller (stdlib, PLY, the harness itself) gets the real thing.  Idempotent."""
+    if _LOCK_SEAM:
+        return
+    real_lock, real_rlock = threading.Lock, threading.RLock
+
+    def _from_library():
+        f = sys._getframe(2)
+        return f is not None and f.f_code.co_filename.startswith(library_prefix)
+
+    def Lock(*a, **k):
+        r = real_lock(*a, **k)
+        return SimLock(r) if _from_library() else r
+
+    def RLock(*a, **k):
+        r = real_rlock(*a, **k)
+        return SimLock(r) if _from_library() else r
+
+    _LOCK_SEAM.update(Lock=real_lock, RLock=real_rlock)
+    threading.Lock, threading.RLock = Lock, RLock
 
 
 class SimCancel(BaseException):
@@ -36,6 +104,7 @@ class Task:
         self.sem = threading.Semaphore(0)
         self.done = False
         self.started = False
+        self.blocked_on = None # SimLock this task waits for (not runnable until it is released)
         self.dp = 0            # own decision-point counter
         self.lines = 0         # own line-event counter (granularity L)
         self.error = None      # harness-level exception escaping the task body
@@ -167,6 +236,8 @@ class Scheduler:
         self.label_points = 0
         self.line_points = 0
         self.on_event = on_event or (lambda *a: None)
+        self.lock_waits = 0
+        self.deadlock = False
         self._pending = None    # tid chosen by a task at a decision point
         self.yield_trace = []   # [(tid, label)] at labelled points (for distinctness measure)
         self._code_cache = {}
@@ -198,7 +269,29 @@ class Scheduler:
 
     # ---- internals
     def _runnable(self):
-        return sorted(t.tid for t in self.tasks.values() if not t.done)
+        return sorted(t.tid for t in self.tasks.values() if not t.done and t.blocked_on is None)
+
+    # ---- simulated locks
+    def block_on(self, task, lock):
+        """`task` found `lock` held by a parked task: a decision point at which somebody else must run."""
+        self.lock_waits += 1
+        task.blocked_on = lock
+        task.dp += 1
+        runnable = self._runnable()
+        if not runnable:
+            # every live task waits for a lock: a deadlock of the system under test (or of the harness)
+            self.deadlock = True
+            self._pending = None
+            self.sem.release()
+            task.sem.acquire()
+            return
+        nxt = self.chooser.at_label(task.tid, task.dp, runnable)
+        self._hand_over(task, nxt)
+
+    def lock_released(self, lock):
+        for t in self.tasks.values():
+            if t.blocked_on is lock:
+                t.blocked_on = None
 
     def _hand_over(self, task, nxt):
         self.switches += 1
@@ -255,6 +348,14 @@ class Scheduler:
             self.sem.release()
 
     def run(self):
+        global _ACTIVE
+        _ACTIVE = self
+        try:
+            self._run()
+        finally:
+            _ACTIVE = None
+
+    def _run(self):
         for t in self.tasks.values():
             t.thread = threading.Thread(target=self._thread_main, args=(t,), daemon=True,
                                         name="sim-%s" % t.tid)
@@ -263,6 +364,8 @@ class Scheduler:
         while True:
             runnable = self._runnable()
             if not runnable:
+                if self.deadlock or any(not t.done for t in self.tasks.values()):
+                    raise Blocked("deadlock: every live task waits for a lock held by another")
                 break
             if self._pending is not None and self._pending in runnable:
                 nxt = self._pending
